@@ -116,6 +116,9 @@ def axis_args(rng, kind, dim, exhaustive, unsorted=False, multi=True):
     """list of axis arguments (NumPy-valid) for a source of dimension dim"""
     if kind == "N":
         return [None]
+    if kind == "C":
+        # compile-time axis: harness/c08_common.hpp instantiates ct_v<k> for k in -3..2
+        return [a for a in range(-dim, dim) if -3 <= a <= 2]
     if kind == "I":
         out = []
         for a in range(dim):
@@ -151,7 +154,7 @@ def axis_args(rng, kind, dim, exhaustive, unsorted=False, multi=True):
 def fmt_axis(kind, axis):
     if kind == "N":
         return ""
-    if kind == "I":
+    if kind in ("I", "C"):
         return "%d" % axis
     return fmt_vec(axis)
 
@@ -178,10 +181,14 @@ def gen_cases(rng, tier):
             multi = o.get("multi_axis", True)
             combos = []
             for s in shapes:
+                if o["axis"] == "C" and len(s) > 3:
+                    continue
                 for ax in axis_args(rng, o["axis"], len(s), True, unsorted=not quick, multi=multi):
                     kds = (True, False) if o["keep"] == "R" else ((True,) if o["keep"] == "T" else (False,))
                     for kd in kds:
                         combos.append((s, ax, kd))
+            if o["axis"] == "C":
+                budget = 30 if quick else 300
             if budget is not None and len(combos) > budget:
                 combos = rng.sample(combos, budget)
             for s, ax, kd in combos:
@@ -194,8 +201,10 @@ def gen_cases(rng, tier):
                 else:
                     args = "%s %s %s %d %s %s" % (fmt_vec(s), fmt_data(data, T), fmt_axis(o["axis"], ax), 1 if kd else 0, fmt_val(init, T), fmt_groups(groups))
                 add(o, s, data, " ".join(args.split()), axis=ax, keepdims=bool(kd), initial=(init if o["init"] == "Y" else None))
-        elif kind == "accumulate":
-            combos = [(s, ax) for s in shapes for ax in range(-len(s), len(s))]
+        elif kind in ("accumulate", "accumulate_ct"):
+            combos = [(s, ax) for s in shapes for ax in range(-len(s), len(s)) if kind == "accumulate" or (len(s) <= 3)]
+            if kind == "accumulate_ct":
+                combos = rng.sample(combos, min(len(combos), 30 if quick else 300))
             # exhaustive over (shape, axis) in both tiers (thorough: sampled for the larger scope beyond the exhaustive dim<=3 part)
             if not quick:
                 small = [c for c in combos if len(c[0]) <= 3 and max(c[0]) <= 3]
@@ -321,7 +330,7 @@ def np_reference(m):
             if init is not None:
                 kw["initial"] = R(init) if o["R"][0] == "f" else int(init)
             return uf.reduce(a.astype(R), axis=axis, keepdims=kd, **kw), "exact"
-        if kind == "accumulate":
+        if kind in ("accumulate", "accumulate_ct"):
             ax = m["axis"]
             R = NPT[o["R"]]
             if o["npop"] in ("subtract", "tag"):
